@@ -293,3 +293,12 @@ package harfbuzz
 //@   mode int
 //@   assert_at call unsafeToBreak#1 : [pair-flagged] arg1 == buffer.idx && arg2 == skippyIter.idx+1
 //@   modifies unspecified
+//
+// reverseGraphemes (text shaped against the native direction of its script): the groups are reversed as blocks, so
+// the order of the glyphs INSIDE a grapheme is kept while the order of the graphemes flips; the output is monotone
+// only if all glyphs of a grapheme share one cluster. That is already so at MonotoneGraphemes, must be established by
+// merging at MonotoneCharacters, and must not be done at the Characters level (no merging at all there).
+//@ func reverseGraphemes C01
+//@   mode int
+//@   assert_at call reverseGroups#1 : [merges-exactly-at-monotone-characters] arg2 == (b.ClusterLevel == MonotoneCharacters)
+//@   modifies unspecified
